@@ -2,6 +2,7 @@ import Driver.WT
 import Driver.Adm
 import Driver.Utl
 import Driver.Tm
+import Driver.Ses
 /- Line-protocol oracle: one op per input line, one canonical answer per
    output line. The first token selects the model family. -/
 open Driver
@@ -11,12 +12,15 @@ structure St where
   adm : AdmState := {}
   utl : UtlState := {}
   tm : TmWorld := {}
+  ses : SesState := {}
 
 def step (s : St) (line : String) : St × String :=
   match (line.trimAscii.toString.splitOn " ").filter (· ≠ "") with
   | "wt" :: rest => let (w, o) := wtStep s.wt rest; ({ s with wt := w }, o)
   | "adm" :: rest => let (a, o) := admStep s.adm rest; ({ s with adm := a }, o)
   | "utl" :: rest => let (a, o) := utlStep s.utl rest; ({ s with utl := a }, o)
+  | "ses" :: rest => let (a, o) := sesStep s.ses false rest; ({ s with ses := a }, o)
+  | "ses+" :: rest => let (a, o) := sesStep s.ses true rest; ({ s with ses := a }, o)
   | "tm" :: rest => let (a, o) := tmStep s.tm rest; ({ s with tm := a }, o)
   | "yeast" :: rest => let (a, o) := yeastStep s.utl rest; ({ s with utl := a }, o)
   | _ => (s, "bad-op")
